@@ -60,16 +60,14 @@ Variable orders : ty -> option (list node).
 (* true = unmarshal side, false = marshal side *)
 Variable dir : bool.
 
-(* inspection.unwrap *)
-Fixpoint unwrap (fuel : nat) (t : ty) : ty :=
-  match fuel with 0 => t | S n =>
+(* inspection.unwrap.  Named objects of the environment are classes here: a TypeAliasType object is
+   written structurally as TAlias i <value> (string-valued: TAliasStr). *)
+Fixpoint unwrap (t : ty) : ty :=
   match t with
-  | TFinal t' | TClassVar t' | TAlias _ t' | TNewType _ t' => unwrap n t'
+  | TFinal t' | TClassVar t' | TAlias _ t' | TNewType _ t' => unwrap t'
   | TAliasStr _ c => TRef c
-  | TName c => match E c with Some (NType t') => unwrap n t' | _ => t end
   | _ => t
-  end end.
-Definition UF := 16.
+  end.
 Definition is_ref (t : ty) : bool := match t with TRef _ | TRefLeaf _ | TRefTo _ => true | _ => false end.
 (* refs.forwardref(annotation): only named objects have a reference that can be found *)
 Definition fref (t : ty) : option ty :=
@@ -89,7 +87,7 @@ Definition getitem (cx : ctx) (k : ty) : res routine :=
   | Some r => Ok r
   | None =>
       if is_ref k then Raise EKey
-      else match find_key (unwrap UF k) cx with
+      else match find_key (unwrap k) cx with
            | Some r => Ok r
            | None => match fref k with
                      | Some rf => match find_key rf cx with Some r => Ok r | None => Raise EKey end
